@@ -36,7 +36,9 @@ fn pairs(pa: Plan, ua: u8, pb: Plan, ub: u8, alt: bool, tier: Tier) -> Box<dyn C
 pub fn configs(tier: Tier) -> Vec<Box<dyn Config>> {
     let sse2 = super::width() == 16;
     let q = tier == Tier::Quick;
-    let mut v = Vec::new();
+    let mut v: Vec<Box<dyn Config>> = Vec::new();
+    // a clone that panics part-way must not leak or double-drop the clones made so far (details: C04)
+    v.push(super::c04::mk::<TKey, TVal>(Plan::Zero, if q { 4 } else { 6 }, vec![vec![]], None, tier, false, "-faults"));
     if sse2 {
         v.push(pairs(Plan::Seq, if q { 4 } else { 5 }, Plan::Seq, if q { 4 } else { 5 }, false, tier));
         v.push(pairs(Plan::Zero, 4, Plan::Zero, 4, false, tier));
